@@ -39,21 +39,25 @@ def gen(window, carriers):
     t = open(os.path.join(common.VERIF, 'kani', 'c07_bits.rs.tmpl')).read()
     hs = []
     names = []
+    maxbytes = 1
     for c in carriers:
         vt, bits, kind = CARRIERS[c]
+        maxbytes = max(maxbytes, bits // 8)
         if bits > 64:
             raise ToolLimit('128-bit carriers are not supported by the harness oracle')
         if kind == 'u':
-            enc, repr_, dec, minlen, rrepr = '|v, _| v as u64', '|_, _| true', '|raw, _| raw as %s' % vt, 0, '|v, len| repr_u(v as u64, len)'
+            enc, repr_, k, rrepr = '|v, _| v as u64', '|_, _| true', 0, '|v, len| repr_u(v as u64, len)'
         elif kind == 's':
-            enc, repr_, dec, minlen, rrepr = '|v, _| v as i64 as u64', '|_, _| true', '|raw, len| tc_decode(raw, len) as %s' % vt, 1, '|v, len| repr_tc(v as i64, len)'
+            enc, repr_, k, rrepr = '|v, _| v as i64 as u64', '|_, _| true', 1, '|v, len| repr_tc(v as i64, len)'
         else:
-            enc, repr_, dec, minlen, rrepr = '|v, len| sm_encode(v as i64, len)', '|v, len| repr_sm(v as i64, len)', '|raw, len| sm_decode(raw, len) as %s' % vt, 1, '|v, len| repr_sm(v as i64, len)'
+            enc, repr_, k, rrepr = '|v, len| sm_encode(v as i64, len)', '|v, len| repr_sm(v as i64, len)', 2, '|v, len| repr_sm(v as i64, len)'
         hs.append('put_harness!(put_%s, %s, %s, %d, %s, %s);' % (c, c, vt, bits, enc, repr_))
-        hs.append('parse_harness!(parse_%s, %s, %s, %d, %d, %s);' % (c, c, vt, bits, minlen, dec))
+        hs.append('parse_harness!(parse_%s, %s, %s, %d, %d);' % (c, c, vt, bits, k))
         hs.append('roundtrip_harness!(rt_%s, %s, %s, %d, %s);' % (c, c, vt, bits, rrepr))
         names += ['put_' + c, 'parse_' + c, 'rt_' + c]
-    return t.replace('@W@', str(window)).replace('@HARNESSES@', '\n'.join(hs)), names
+    # the real loop runs over at most min(window, carrier bytes + 1) bytes; +1 for the exit test
+    unwind = min(window, maxbytes + 1) + 1
+    return (t.replace('@W@', str(window)).replace('@UNWIND@', str(unwind)).replace('@HARNESSES@', '\n'.join(hs)), names)
 
 
 def run(tier, seed):
@@ -103,5 +107,5 @@ def run(tier, seed):
         ur.bounded.append('L0 put/parse carriers %s: all values, widths 1..=BITS, all bit offsets and background contents; buffer length symbolic up to %d bytes (bounded(window): locality of put/parse in the buffer beyond the window is not mechanised)' % (','.join(cs), w))
     ur.functions = [{'name': n, 'lo': 0, 'hi': 0, 'origin': 'compiled crate (Kani)', 'path': n, 'n_requires': 0, 'n_ensures': 0, 'n_loops': 1}
                     for n in sorted(set(o.func for o in ur.obligs))]
-    ur.trusted += ['Kani 0.68 + CBMC 6.11 + CaDiCaL; rustc MIR semantics as modelled by Kani', 'unwinding bound 66 with unwinding assertions on (loops are bounded by carrier bytes <= 9 and by the 64-step oracle)']
+    ur.trusted += ['Kani 0.68 + CBMC 6.11 + CaDiCaL; rustc MIR semantics as modelled by Kani', 'unwinding bound = min(window, carrier bytes + 1) + 1 with unwinding assertions on (the only loop is the real per-byte loop; oracles are loop-free)']
     return ur
